@@ -1,7 +1,7 @@
 //! L3 — deviation 1 (and, thorough, deviation 2 on the micro seeds) from valid
 //! seed programs: every single-character deletion, every insertion of one
-//! character of INSERT at every position, every single-token replacement by
-//! every token of the alphabet.
+//! character of INSERT at every position, every truncation (proper prefix),
+//! every single-token replacement by every token of the alphabet.
 
 use crate::oracle::Input;
 use crate::seeds::{self, Seed};
@@ -24,6 +24,10 @@ pub struct Table {
 
 fn d1_count_chars(n: u64) -> u64 {
     n + INSERT.len() as u64 * (n + 1)
+}
+/// truncations: every proper prefix of the seed (0..n-1 characters)
+fn d1_count_trunc(n: u64) -> u64 {
+    n
 }
 
 /// Deviation 2 on a seed of `n` characters: first a character edit at
@@ -54,7 +58,7 @@ impl Table {
         let mut d1_prefix = vec![0];
         for (b, t) in bounds.iter().zip(&toks) {
             let n = (b.len() - 1) as u64;
-            let c = d1_count_chars(n) + (t.len() * ALPHABET.len()) as u64;
+            let c = d1_count_chars(n) + d1_count_trunc(n) + (t.len() * ALPHABET.len()) as u64;
             d1_prefix.push(d1_prefix.last().unwrap() + c);
         }
         let mut d2_seeds = vec![];
@@ -133,6 +137,11 @@ impl Table {
             return (r.map(|c| c.into_iter().collect()), what);
         }
         let k = k - d1_count_chars(n);
+        if k < d1_count_trunc(n) {
+            let what = json!({"truncate_to_chars": k});
+            return (Some(s[..b[k as usize]].to_string()), what);
+        }
+        let k = k - d1_count_trunc(n);
         let (ti, ai) = ((k / ALPHABET.len() as u64) as usize, (k % ALPHABET.len() as u64) as usize);
         let t = self.toks[si][ti];
         let what = json!({"replace_token": &s[t.start..t.end], "at_byte": t.start, "with": ALPHABET[ai]});
